@@ -29,7 +29,7 @@ RULE = ("codec {none, gz, bz2, lz4, zst, zstd} x container {stream, avro, jsonfi
 CODECS = {"none": "", "gz": ".gz", "bz2": ".bz2", "lz4": ".lz4", "zst": ".zst", "zstd": ".zstd"}
 MAGIC = {"gz": b"\x1f\x8b", "bz2": b"BZh", "lz4": b"\x04\x22\x4d\x18", "zst": b"\x28\xb5\x2f\xfd", "zstd": b"\x28\xb5\x2f\xfd"}
 CONTAINERS = {"stream": ("", ".records"), "avro": ("avro://", ".avro"), "jsonfile": ("jsonfile://", ".json"), "csvfile": ("csvfile://", ".csv")}
-NAMINGS = ["path", "neutral", "fileio", "buffered", "bytesio", "readonly", "stdin", "bytesio-at-offset", "fileio-at-offset"]
+NAMINGS = ["path", "neutral", "fileio", "buffered", "bytesio", "readonly", "stdin", "bytesio-at-offset", "fileio-at-offset", "scheme+bytesio", "scheme+fileio"]
 SEQS = ["empty", "one", "three", "many"]
 TIER = ["quick"]
 _n = [0]
@@ -143,6 +143,12 @@ def read_named(container, naming, path, scheme, raw):
             rd = RecordReader(fileobj=fh)
         elif naming == "bytesio":
             rd = RecordReader(fileobj=io.BytesIO(raw))
+        elif naming == "scheme+bytesio":
+            # the container is named by the URL scheme, the bytes come from a file object: the codec is still in the leading bytes
+            rd = RecordReader(scheme or "stream://", fileobj=io.BytesIO(raw))
+        elif naming == "scheme+fileio":
+            fh = open(path, "rb", buffering=0)
+            rd = RecordReader(scheme or "stream://", fileobj=fh)
         elif naming == "bytesio-at-offset":
             # the stream is embedded behind a foreign header; the caller hands over a file object positioned at its start
             fh = io.BytesIO(b"\x7fFOREIGN-HEADER" + bytes(113) + raw)
@@ -199,10 +205,10 @@ def run_cell(case):
         want = [("csv", n) for _, n in want]
     viol = []
     outs = []
-    label = "%s+%s" % (container, codec)
+    label = "%s+%s" % (container, codec) + (":" + case["wopt"] if case.get("wopt") else "")
     try:
         try:
-            w = RecordWriter(scheme + path)
+            w = RecordWriter(scheme + path, **({"clobber": False} if case.get("wopt") == "noclobber" else {}))
             for r in records:
                 w.write(r)
             w.flush()
@@ -456,6 +462,8 @@ def cases(tier):
         if container == "csvfile" and seq == "empty":
             continue  # a CSV file without a header row has no content to detect a dialect from: not a codec matter
         yield {"kind": "cell", "codec": codec, "container": container, "seq": seq}
+        if seq in ("one", "three"):
+            yield {"kind": "cell", "codec": codec, "container": container, "seq": seq, "wopt": "noclobber"}
     for name in junk_inputs():
         yield {"kind": "junk", "name": name}
     for codec in CODECS:
